@@ -11,9 +11,14 @@ import DesyncModel.Setters
 namespace Desync
 open Gen
 
+/-- the queue a pool thread has just taken from the schedule -/
+def gotHolds : Option Nat → Nat → Bool
+  | some q', q => q' == q
+  | none, _ => false
+
 /-- Does an activity at program counter `pc` own the run right of queue `q`? -/
 def Pc.holds : Pc → Nat → Bool
-  | .begin _ k, q | .body _ k, q => k.holds q
+  | .begin _ k, q | .body _ k, q | .unwinding k, q => k.holds q
   | .stReap k, q | .stScanLock k, q | .stScan _ k, q | .stScanHeld _ k, q | .stScanRel _ _ k, q
   | .stScanUnlock _ k, q | .stReadMax k, q | .stSpawn _ k, q | .stSpawnRel k, q => k.holds q
   | .rqCs _ k, q | .rqNotifyAcq _ _ _ k, q | .rqNotify _ _ _ k, q | .rqNotifyRel _ _ _ k, q | .rqPush _ k, q => k.holds q
@@ -26,7 +31,7 @@ def Pc.holds : Pc → Nat → Bool
   | .jobStart _ c k, q | .jobAwait _ c k, q | .jobBodyDone _ c k, q | .jobEnd _ c k, q | .jobSignal _ c k, q
   | .jobSigDrop _ c k, q | .jobDrop _ c k, q | .jobDropNotify _ c k, q =>
       (match c with | .caller _ => k.holds q | .pool _ q' => q' == q | .task _ _ q' => q' == q)
-  | .ptUnlockSched _ (some q'), q | .ptUnlockBusy _ (some q'), q => q' == q
+  | .ptUnlockSched _ g, q | .ptUnlockBusy _ g, q => gotHolds g q
   | .pdDequeue _ q', q | .pdRequeue _ q' _, q | .pdPending _ q', q | .pdExit _ q', q => q' == q
   | .pfPollRel _ next, q => next.holds q
   | .dqCheck _ q', q | .dqDequeue _ q', q | .dqRequeue _ _ _ q', q | .dqCheck2 _ _ q', q | .dqSetWfw _ _ q', q
